@@ -1049,8 +1049,12 @@ func oracles11(r *Run, rng *Rng, t *dir11, st *oracleStats) {
 
 // ---------------------------------------------------------------- run
 
-func modelCase11(r *Run, t *dir11) {
-	o := build11(t, root11)
+// roots11: the path-free model must agree with the implementation wherever the tree is placed
+var roots11 = []string{root11, "/top", "/a/b/c/d/e/f/top", "/w/top", "/x-y/k.d/top"}
+
+func modelCase11(r *Run, t *dir11, root string) {
+	o := build11(t, root)
+	r.Count("build_root_depth", fmt.Sprint(strings.Count(root, "/")))
 	r.Count("build_class", o.Cls)
 	sortKey := "none"
 	if t.Sort != nil {
@@ -1092,7 +1096,7 @@ func modelCase11(r *Run, t *dir11) {
 		r.Count("build_features", "nested-rename")
 	}
 	term := fmt.Sprintf("(CBuild %s %s [%s] %s %s)", t.coq(), t.Sort.coq(), strings.Join(clusterScoped(docs), "; "), o.Cls, coqDocs(o.Docs))
-	r.AddCase(term, treeCase11{Kind: "tree", Tree: t}, o.Cls == ClsOk && len(o.Docs) > 1)
+	r.AddCase(term, treeCase11{Kind: "tree", Tree: t, Note: "built at " + root}, o.Cls == ClsOk && len(o.Docs) > 1)
 }
 
 func lessCase11(r *Run, c less11) {
@@ -1163,7 +1167,8 @@ func runC11(r *Run, rng *Rng, tier string) error {
 	}
 	r.Meta.Rule = "less: id pairs over adversarial group/version/kind/namespace/name pools (place holders ~G ~V ~K ~X ~N, separators _ |, bytes >= 0x7f, empty fields, " +
 		"ranked/unranked kinds, Namespace kind), 60% near-equal pairs, 20% custom order lists; build: trees of 1-3 layers (nested and sibling bases), 0-4 entries per resources list, " +
-		"files of 0-3 documents over 20 kinds incl. the prefix-skip kinds and cluster-scoped kinds, names/prefixes/suffixes chosen to collide, sortOptions none/fifo/legacy/legacy-custom; " +
+		"files of 0-3 documents over 20 kinds incl. the prefix-skip kinds and cluster-scoped kinds, names/prefixes/suffixes chosen to collide, sortOptions none/fifo/legacy/legacy-custom, " +
+		"each tree materialised at one of 5 root directories of depth 1-7; " +
 		"oracle trees additionally carry namespace, commonLabels, labels, commonAnnotations, configMapGenerator, patches, images. non-trivial = Less on different GVKs / a successful build with >=2 documents"
 	tableCheck11(r)
 	for _, c := range loadCorpus11() {
@@ -1176,7 +1181,7 @@ func runC11(r *Run, rng *Rng, tier string) error {
 			lessCase11(r, genLess11(rng.Fork()))
 		}
 		g := rng.Fork()
-		modelCase11(r, genTree11(g, false, 1+g.Intn(2)))
+		modelCase11(r, genTree11(g, false, 1+g.Intn(2)), roots11[g.Intn(len(roots11))])
 	}
 	st := &oracleStats{maxPerms: maxPerms}
 	for i := 0; i < nOracleSimple; i++ {
@@ -1206,7 +1211,7 @@ func runCorpus11(r *Run, rng *Rng, c treeCase11) {
 	case "tree":
 		if c.Tree != nil {
 			if !c.Tree.rich() {
-				modelCase11(r, c.Tree)
+				modelCase11(r, c.Tree, roots11[rng.Intn(len(roots11))])
 			}
 			oracles11(r, rng, c.Tree, &oracleStats{})
 		}
